@@ -266,7 +266,24 @@ def run(ctx):
 def replay(ctx, obj):
     def tup(t):
         return tuple(tup(x) if isinstance(x, list) else x for x in t)
-    tree = tup(obj["replay"]["tree"])
+    r = obj["replay"]
+    if r.get("kind") == "int2str":
+        import claripy
+        try:
+            claripy.IntToStr(claripy.BVV((1 << r["bits"]) - 1, r["bits"]))
+        except claripy.errors.ClaripyError as ex:
+            print("claripy error:", ex); return 0
+        except Exception as ex:  # noqa
+            print("raised:", type(ex).__name__, ex); print("VIOLATION property=C04 replay=(given)"); return 1
+        print("no exception on the current tree"); return 0
+    if r.get("kind") in ("fp", "str"):
+        from lib import fs_fp as P, fs_str as S
+        res = P.real_fold(r["op"], r["fmt"], r["rm"], tup(r["a"])) if r["kind"] == "fp" else S.real_fold(r["op"], tup(r["a"]))
+        print("fold result:", res)
+        if res[0] == "err" and not hasattr(__import__("claripy").errors, res[1]):
+            print("VIOLATION property=C04 replay=(given)"); return 1
+        return 0
+    tree = tup(r["tree"])
     a, log, e = X.build_case(tree)
     print("written:", repr(tree)[:500])
     if e is not None and X.exc_kind(e) not in DOCUMENTED:
